@@ -1054,6 +1054,56 @@ func (a *Audit) indexSite(fn *ssa.Function, b *ssa.BasicBlock, in ssa.Instructio
 
 // proveGE0: 0 <= v
 func (e *Engine) proveGE0(v ssa.Value, b *ssa.BasicBlock) (bool, string) {
+	if e.ge0Depth < 4 {
+		e.ge0Depth++
+		defer func() { e.ge0Depth-- }()
+		switch x := v.(type) {
+		case *ssa.Call:
+			// the result of a module function all of whose returns are non-negative (clampCount)
+			if callee := x.Call.StaticCallee(); callee != nil && inModule(callee) && len(callee.Blocks) > 0 && callee.Signature.Results().Len() == 1 && isIntType(callee.Signature.Results().At(0).Type()) {
+				all, n := true, 0
+				for _, cb := range callee.Blocks {
+					if ret, ok := cb.Instrs[len(cb.Instrs)-1].(*ssa.Return); ok {
+						n++
+						if ok2, _ := e.proveGE0(ret.Results[0], cb); !ok2 {
+							all = false
+						}
+					}
+				}
+				if all && n > 0 {
+					return true, "every return of " + callee.Name() + " is non-negative"
+				}
+			}
+		case *ssa.Parameter:
+			// a parameter of an unexported function: non-negative at every call
+			if fn := x.Parent(); fn != nil && fn.Object() != nil && !fn.Object().Exported() && fn.Parent() == nil && !e.w.isRegistered(fn) {
+				sites := e.callSites(fn)
+				all := len(sites) > 0
+				for _, cs := range sites {
+					idx := -1
+					for i, q := range fn.Params {
+						if q == x {
+							idx = i
+						}
+					}
+					if idx < 0 || idx >= len(cs.Common().Args) {
+						all = false
+						break
+					}
+					if ok2, _ := e.proveGE0(cs.Common().Args[idx], cs.Block()); !ok2 {
+						all = false
+					}
+				}
+				if all {
+					return true, "non-negative at every call of " + fn.Name()
+				}
+			}
+		}
+	}
+	return e.proveGE0Local(v, b)
+}
+
+func (e *Engine) proveGE0Local(v ssa.Value, b *ssa.BasicBlock) (bool, string) {
 	t, off, ok := e.linOf(v)
 	if !ok {
 		return false, "not linear"
